@@ -1,6 +1,7 @@
 """C03 — TR-31 key blocks interoperate with an independent implementation of the spec."""
 import warnings
 
+import core
 from core import Case, enc_b, enc_s, enc_header, psec
 from props.tr31util import VERS, rb, rs, rand_blocks, make_header, header_tuple, unwrap_case, wrap_case, UNWRAP_TOK, tr31, Session
 
@@ -178,6 +179,35 @@ def generate(rng, tier, seed):
                 i = c2.line("spec.tr31_build\t" + "\t".join([enc_b(kbpk), enc_header(h), "s:", "i:0", enc_b(key), enc_b(rb(rng, padlen)), "i:0"]))
                 c2.deferred = (kbpk, i, h, key)
                 yield c2
+        # protection keys with related components (K1|K2|K1 - a double-length key written out in full -, K1|K1|K2, K|K|K, the third
+        # component differing from the first in parity bits only, degenerate and weak components): the derivation goes by the
+        # *length* of the KBPK, whatever its content; both directions
+        shaped = []
+        for ks in ksizes:
+            if ver != "D" and ks >= 16:
+                a, b2 = rb(rng, 8), rb(rng, 8)
+                ap = bytes(x ^ 1 for x in a)
+                shaped += [x[:ks] for x in (a + b2 + a, a + b2 + ap, a + a + b2, a + b2 + b2, a * 3, a + ap + a)]
+            pool = core.special_keys(rng, ks, des=(ver != "D"))
+            shaped += pool[:2] + rng.sample(pool[2:], min(len(pool) - 2, 3 if tier == "quick" else 12))
+        for kbpk in shaped:
+            h = make_header(rng, ver, rand_blocks(rng, rng.choice([0, 1])))
+            key = rb(rng, rng.choice([8, 16, 24]))
+            c = Case(f"{ver}:shaped-kbpk:psec-to-spec", {"kbpk": len(kbpk)})
+            w = wrap_case(c, kbpk, h, key, 0)
+            if w.ok:
+                i = c.line(f"spec.tr31_unwrap\t{enc_b(kbpk)}\t{enc_s(w.value)}")
+                want = "ok\t" + enc_header(h) + "\t" + enc_b(key)
+                c.pred("key block produced by psec under a KBPK with related components is valid per the specification",
+                       lambda rep, i=i, want=want: None if rep[i] == want else f"specification says {rep[i][:120]}")
+            else:
+                c.fail("wrap raised " + w.err + " for a KBPK with related components")
+            yield c
+            padlen = (-(2 + len(key))) % bs
+            c2 = Case(f"{ver}:shaped-kbpk:spec-to-psec", {"kbpk": len(kbpk)})
+            i = c2.line("spec.tr31_build\t" + "\t".join([enc_b(kbpk), enc_header(h), "s:", "i:0", enc_b(key), enc_b(rb(rng, padlen)), "i:0"]))
+            c2.deferred = (kbpk, i, h, key)
+            yield c2
         # long keys: bit lengths around 2^15 (4095, 4096, 4097 bytes) and the longest that fits, both directions
         for klen in (4095, 4096, 4097, 4900):
             kbpk = rb(rng, ksizes[-1])
